@@ -50,8 +50,8 @@ Proof.
   - cbn [filter fst]. destruct (j =? n); cbn [map]; [f_equal|]; exact IH.
 Qed.
 
-Lemma dp_uri_path_update : forall k v l, k <> DP_URI_PATH ->
-  dp_uri_path (dp_update k v l) = dp_uri_path l.
+Lemma dp_uri_path_update : forall cfg k v l, k <> DP_URI_PATH ->
+  dp_uri_path cfg (dp_update k v l) = dp_uri_path cfg l.
 Proof. intros. unfold dp_uri_path. rewrite dp_values_update_other by auto. reflexivity. Qed.
 
 Lemma dp_has_false_find : forall n l, dp_has n l = false -> dp_find n l = None.
